@@ -870,7 +870,10 @@ func (st *tunnelClientStream) finishStream(err error, trailers metadata.MD) bool
 	}
 	defer st.cancel()
 	st.ch.removeStream(st.streamID)
-	st.receiver.close()
+	// Closing the receiver releases a reader blocked in RecvMsg, which may
+	// then immediately ask for the trailers: so that must happen last, after
+	// trailers and signals below have been published.
+	defer st.receiver.close()
 
 	st.metaMu.Lock()
 	defer st.metaMu.Unlock()
